@@ -1,6 +1,6 @@
 #!/bin/bash
 # adopt + test second-wave seeds: wave.sh C05 C08 ...
-for p in "$@"; do for i in 1 2; do
+for p in "$@"; do for i in ${IDX:-1 2}; do
   id=$p-$((i+${OFF:-2}))
   if [ -f ${SEEDDIR:-/tmp/seeds2}/$p/patch$i.diff ]; then
     /venv/bin/python checks/adopt_seed.py $id $p ${SEEDDIR:-/tmp/seeds2}/$p/patch$i.diff ${SEEDDIR:-/tmp/seeds2}/$p/demo$i.py ${SEEDDIR:-/tmp/seeds2}/$p/meta$i.json 2>&1 | tail -1 | cut -c1-160
